@@ -48,6 +48,10 @@ use crate::err::ErrSpan;
 /// let obj_file = obj_file.unwrap();
 /// assert!(obj_file.symbol_table().is_none());
 /// ```
+/// 
+/// The one exception is a source that declares `.external` symbols:
+/// its symbol table (without debug symbols) is kept, since the linker needs it to resolve them
+/// and the simulator needs it to reject loading a file with unresolved externals.
 pub fn assemble(ast: Vec<Stmt>) -> Result<ObjectFile, AsmErr> {
     let sym = SymbolTable::new(&ast, None)?;
     ObjectFile::new(ast, sym, false)
@@ -1191,9 +1195,13 @@ impl ObjectFile {
         let block_map = block_map.into_iter()
             .map(|(start, ObjBlock { words, .. })| (start, words))
             .collect();
+        // Without debug symbols the symbol table is dropped, unless it declares external symbols:
+        // those (and their relocation entries) have to stay visible to the linker
+        // and to the loader's unresolved-external check.
+        let keep_sym = debug || sym.label_map.values().any(|data| data.external);
         Ok(Self {
             block_map,
-            sym: debug.then_some(sym),
+            sym: keep_sym.then_some(sym),
         })
     }
 
